@@ -89,6 +89,60 @@ func ParseCase(line string) (*Case, error) {
 	return c, nil
 }
 
+// Renamed returns the case with every model name replaced by a concrete one (path segments of trees, spellings,
+// addressed paths and the names inside listing / stat results); ".", ".." and "" stay.  The model's names are
+// abstract: a second instantiation in which one name is a string PREFIX of the other ("sub" / "sub.old") catches
+// code that compares paths as strings instead of by segments.
+func (c *Case) Renamed(m map[string]string) *Case {
+	seg := func(x string) string {
+		if y, ok := m[x]; ok {
+			return y
+		}
+		return x
+	}
+	path := func(p []string) []string {
+		out := make([]string, len(p))
+		for i, x := range p {
+			out[i] = seg(x)
+		}
+		return out
+	}
+	tree := func(t Tree) Tree {
+		var out Tree
+		for _, n := range t {
+			out = append(out, Node{P: path(n.P), V: n.V})
+		}
+		SortTree(out)
+		return out
+	}
+	res := func(r Res) Res {
+		var out Res
+		for _, e := range r {
+			e2 := append([]string{}, e...)
+			if len(e2) >= 2 && (e2[0] == "e" || e2[0] == "stat") {
+				e2[1] = seg(e2[1])
+			}
+			out = append(out, e2)
+		}
+		return out
+	}
+	n := &Case{Prev: tree(c.Prev), Op: c.Op, Raw: c.Raw, Pre: c.Pre, Assumed: c.Assumed}
+	n.Op.Sp = path(c.Op.Sp)
+	if c.Op.Sq != nil {
+		n.Op.Sq = path(c.Op.Sq)
+	}
+	for _, a := range c.Addr {
+		n.Addr = append(n.Addr, path(a))
+	}
+	for _, o := range c.Outs {
+		n.Outs = append(n.Outs, Outcome{T: tree(o.T), Res: res(o.Res)})
+	}
+	return n
+}
+
+// PrefixNames: the second instantiation of the model's names
+var PrefixNames = map[string]string{"a": "sub", "b": "sub.old", "c": "su"}
+
 // Failure describes one observed disagreement with the specification.
 type Failure struct {
 	Key     string `json:"key"`
